@@ -244,4 +244,367 @@ theorem refines_branch (dir : Bool) (off : Int) : StepRefines (.branch dir off) 
           (by simp [absC, hd])
         simpa [absC, pc_succ hpc] using this
 
+/-! ## The tail-call instructions -/
+
+/-- `TailGuardInstr`. The VM adds `skip` to the pc without a bounds check; the stack-effect machine
+(like the checker) only has the step when the target lies inside the function — which it does
+in generated code (`selfTailCode_skip` of Props/C09.lean). -/
+theorem refines_tailGuard (x : String) (skip : Nat) (n : Nat) (s s' : St) (hpc : 0 ≤ s.pc)
+    (hc : (fnOf s s.curfunc).code[s.pc.toNat]? = some (.tailGuard x skip))
+    (hin : s.pc.toNat + skip ≤ (fnOf s s.curfunc).code.length)
+    (hex : (exec (n + 1) (.tailGuard x skip)).run s = (.ok (), s')) :
+    CStep (fnB s s.curfunc) (absC s) (absC s') := by
+  simp only [exec] at hex
+  have ht : target (absC s).pc (skip : Int) (fnB s s.curfunc).code.length = some (s.pc.toNat + skip) := by
+    apply target_eq
+    · show ((s.pc.toNat : Nat) : Int) + skip = _
+      push_cast; rfl
+    · show s.pc.toNat + skip ≤ (B s.loops (fnOf s s.curfunc).code).length
+      rw [B_length]; exact hin
+  have taken : CStep (fnB s s.curfunc) (absC s) (absC { s with pc := s.pc + skip }) := by
+    have := CStep.guardTaken (f := fnB s s.curfunc) (absC s) _ (skip : Int) _ (fetchB hc) rfl ht
+    have he : (s.pc + (skip : Int)).toNat = s.pc.toNat + skip := by omega
+    simpa [absC, he] using this
+  have fall : CStep (fnB s s.curfunc) (absC s) (absC { s with pc := s.pc + 1 }) := by
+    have := CStep.guardFall (f := fnB s s.curfunc) (absC s) _ (skip : Int) (fetchB hc) rfl
+    simpa [absC, pc_succ hpc] using this
+  cases hl : lexLookup s x with
+  | none => vmsimp_at hex [hl]; cases hex; exact taken
+  | some r =>
+    obtain ⟨id, v⟩ := r
+    cases v <;> try (vmsimp_at hex [hl]; cases hex; exact taken)
+    rename_i f
+    by_cases hf : f = s.curfunc
+    · vmsimp_at hex [hl, hf]; cases hex; exact fall
+    · vmsimp_at hex [hl, hf]; cases hex; exact taken
+
+theorem plain_mkList : ∀ xs : List Val, plain (mkList xs) = true
+  | [] => rfl
+  | _ :: _ => rfl
+
+/-- `PrepareCallInstr` of compiled code (fix C09-02: it packs the variadic tail of the running
+function) -/
+theorem refines_prepareCall (x : String) (nargs : Nat) (n : Nat) (s s' : St) (hpc : 0 ≤ s.pc)
+    (hc : (fnOf s s.curfunc).code[s.pc.toNat]? = some (.prepareCall x nargs))
+    (hu : (fnOf s s.curfunc).user = false)
+    (hex : (exec (n + 1) (.prepareCall x nargs)).run s = (.ok (), s')) :
+    CStep (fnB s s.curfunc) (absC s) (absC s') := by
+  simp only [exec] at hex
+  cases hv : (fnOf s s.curfunc).varargs with
+  | false =>
+    vmsimp_at hex [hu, hv]
+    cases hex
+    have := CStep.prepareFix (f := fnB s s.curfunc) (absC s) _ nargs (fetchB hc) rfl hv
+    simpa [absC, pc_succ hpc] using this
+  | true =>
+    by_cases h1 : nargs < (fnOf s s.curfunc).nargs
+    · vmsimp_at hex [hu, hv, wrangleOptargs, h1]; cases hex
+    · by_cases h2 : (fnOf s s.curfunc).nargs < nargs
+      · by_cases h3 : s.data.length < nargs - (fnOf s s.curfunc).nargs
+        · vmsimp_at hex [hu, hv, wrangleOptargs, popN, h1, h2, h3]; cases hex
+        · cases hm : (s.data.take (nargs - (fnOf s s.curfunc).nargs)).mapM id with
+          | none => vmsimp_at hex [hu, hv, wrangleOptargs, popN, h1, h2, h3, hm]; cases hex
+          | some vs =>
+            vmsimp_at hex [hu, hv, wrangleOptargs, popN, h1, h2, h3, hm]
+            cases hex
+            have := CStep.prepareVar (f := fnB s s.curfunc) (absC s) _ nargs
+              ((s.data.take (nargs - (fnOf s s.curfunc).nargs)).map cellOf)
+              ((s.data.drop (nargs - (fnOf s s.curfunc).nargs)).map cellOf) (fetchB hc) rfl hv
+              (by show (fnOf s s.curfunc).nargs ≤ nargs; omega)
+              (by simp only [absC, ← List.map_append, List.take_append_drop])
+              (by simp only [List.length_map, List.length_take]; show min _ _ = nargs - (fnOf s s.curfunc).nargs; omega)
+            simpa [absC, pc_succ hpc, cellOf_plain (plain_mkList _)] using this
+      · have heq : nargs = (fnOf s s.curfunc).nargs := by omega
+        vmsimp_at hex [hu, hv, wrangleOptargs, h1, h2]
+        cases hex
+        have := CStep.prepareVar (f := fnB s s.curfunc) (absC s) _ nargs [] (s.data.map cellOf) (fetchB hc) rfl hv
+          (by show (fnOf s s.curfunc).nargs ≤ nargs; omega) (by simp [absC])
+          (by show 0 = nargs - (fnOf s s.curfunc).nargs; omega)
+        simpa [absC, pc_succ hpc, cellOf] using this
+
+/-! ## Environment -/
+
+/-- `EnvToStackInstr`: the value pushed is the value bound; it is an ordinary value as long as
+no stack-mark was ever bound to a name (verified code never pops a mark as an operand) -/
+theorem refines_envToStack (x : String) (n : Nat) (s s' : St) (hpc : 0 ≤ s.pc)
+    (hc : (fnOf s s.curfunc).code[s.pc.toNat]? = some (.envToStack x))
+    (hplain : ∀ id v, lexLookup s x = some (id, v) → plain v = true)
+    (hex : (exec (n + 1) (.envToStack x)).run s = (.ok (), s')) :
+    CStep (fnB s s.curfunc) (absC s) (absC s') := by
+  simp only [exec] at hex
+  cases hl : lexLookup s x with
+  | none => vmsimp_at hex [hl]; cases hex
+  | some r =>
+    obtain ⟨id, v⟩ := r
+    vmsimp_at hex [hl]
+    cases hex
+    have := CStep.simple (f := fnB s s.curfunc) (absC s) _ 0 1 [] (absC s).data (fetchB hc) rfl rfl rfl
+    simpa [absC, pc_succ hpc, cellOf_plain (hplain id v hl)] using this
+
+/-- what `bindTop` leaves of the state when it succeeds: everything the abstraction sees -/
+theorem bindTop_abs (x : String) (v : Val) (s s' : St) (h : (bindTop x v).run s = (.ok (), s')) :
+    s'.pc = s.pc ∧ s'.data = s.data ∧ s'.linear = s.linear ∧ s'.addr = s.addr := by
+  cases hl : s.linear with
+  | nil => vmsimp_at h [bindTop, hl]; cases h
+  | cons top rest =>
+    cases top with
+    | none => vmsimp_at h [bindTop, hl]; cases h
+    | some top =>
+      cases hx : (scopeOf s top).vars.lookup x with
+      | none =>
+        vmsimp_at h [bindTop, setInScope, hl, hx]
+        cases h
+        exact ⟨rfl, rfl, rfl, rfl⟩
+      | some cur =>
+        by_cases hr : rebindOk s.heap cur v = true
+        · vmsimp_at h [bindTop, setInScope, hl, hx, hr]
+          cases h
+          exact ⟨rfl, rfl, rfl, rfl⟩
+        · vmsimp_at h [bindTop, setInScope, hl, hx, hr]
+          cases h
+
+theorem refines_popStackPutEnv (x : String) : StepRefines (.popStackPutEnv x) := by
+  intro n s s' hpc hc hex
+  simp only [exec] at hex
+  cases hd : s.data with
+  | nil => vmsimp_at hex [hd]; cases hex
+  | cons v rest =>
+    cases v with
+    | none => vmsimp_at hex [hd]; cases hex
+    | some v =>
+      have hb : (bindTop x v).run { s with data := rest, pc := s.pc + 1 } = (.ok (), s') := by
+        vmsimp_at hex [hd]
+        vmsimp
+        exact hex
+      obtain ⟨h1, h2, h3, h4⟩ := bindTop_abs x v _ s' hb
+      have := CStep.simple (f := fnB s s.curfunc) (absC s) _ 1 0 [cellOf (some v)] (rest.map cellOf) (fetchB hc) rfl
+        (by simp [absC, hd]) rfl
+      simpa [absC, pc_succ hpc, h1, h2, h3, h4] using this
+
+/-! ## Stack-marks -/
+
+/-- `popToMark` succeeds exactly by popping the cells above the first stack-mark of the loop -/
+theorem popToMark_ok (l : Nat) (keep : Bool) : ∀ (fuel : Nat) (s s' : St),
+    (popToMark l keep fuel).run s = (.ok (), s') →
+    ∃ above below, s.data = above ++ some (.mark l) :: below ∧ (∀ c ∈ above.map cellOf, c ≠ Cell.mark l) ∧
+      s' = { s with data := if keep then some (.mark l) :: below else below }
+  | 0, s, s', h => by
+    simp only [popToMark] at h
+    vmsimp_at h
+    cases h
+  | fuel + 1, s, s', h => by
+    simp only [popToMark] at h
+    cases hd : s.data with
+    | nil => vmsimp_at h [hd]; cases h
+    | cons v rest =>
+      cases v with
+      | none => vmsimp_at h [hd]; cases h
+      | some v =>
+        have recStep : ∀ (hv : ∀ l', v ≠ .mark l'),
+            (popToMark l keep fuel).run { s with data := rest } = (.ok (), s') →
+            ∃ above below, some v :: rest = above ++ some (.mark l) :: below ∧
+              (∀ c ∈ above.map cellOf, c ≠ Cell.mark l) ∧
+              s' = { s with data := if keep then some (.mark l) :: below else below } := by
+          intro hv hr
+          obtain ⟨above, below, h1, h2, h3⟩ := popToMark_ok l keep fuel _ s' hr
+          refine ⟨some v :: above, below, by simp only at h1; rw [h1]; rfl, ?_, by simpa using h3⟩
+          intro c hcm
+          simp only [List.map_cons, List.mem_cons] at hcm
+          rcases hcm with rfl | hcm
+          · cases v <;> first | exact absurd rfl (hv _) | (intro hh; cases hh)
+          · exact h2 c hcm
+        cases v with
+        | mark l' =>
+          by_cases hl : l' = l
+          · subst hl
+            cases keep with
+            | true =>
+              vmsimp_at h [hd]
+              cases h
+              exact ⟨[], rest, rfl, by simp, by simp⟩
+            | false =>
+              vmsimp_at h [hd]
+              cases h
+              exact ⟨[], rest, rfl, by simp, by simp⟩
+          · vmsimp_at h [hd, hl]
+            obtain ⟨above, below, h1, h2, h3⟩ := popToMark_ok l keep fuel _ s' (by vmsimp; exact h)
+            refine ⟨some (.mark l') :: above, below, by simp only at h1; rw [h1]; rfl, ?_, by simpa using h3⟩
+            intro c hcm
+            simp only [List.map_cons, List.mem_cons] at hcm
+            rcases hcm with rfl | hcm
+            · intro hh
+              simp only [cellOf, Cell.mark.injEq] at hh
+              exact hl hh
+            · exact h2 c hcm
+        | nil => vmsimp_at h [hd]; exact recStep (fun _ hh => by cases hh) (by vmsimp; exact h)
+        | bool b => vmsimp_at h [hd]; exact recStep (fun _ hh => by cases hh) (by vmsimp; exact h)
+        | int i => vmsimp_at h [hd]; exact recStep (fun _ hh => by cases hh) (by vmsimp; exact h)
+        | str i => vmsimp_at h [hd]; exact recStep (fun _ hh => by cases hh) (by vmsimp; exact h)
+        | pair a b => vmsimp_at h [hd]; exact recStep (fun _ hh => by cases hh) (by vmsimp; exact h)
+        | arr r => vmsimp_at h [hd]; exact recStep (fun _ hh => by cases hh) (by vmsimp; exact h)
+        | fn r => vmsimp_at h [hd]; exact recStep (fun _ hh => by cases hh) (by vmsimp; exact h)
+        | builtin r => vmsimp_at h [hd]; exact recStep (fun _ hh => by cases hh) (by vmsimp; exact h)
+        | lazy r => vmsimp_at h [hd]; exact recStep (fun _ hh => by cases hh) (by vmsimp; exact h)
+        | sym r => vmsimp_at h [hd]; exact recStep (fun _ hh => by cases hh) (by vmsimp; exact h)
+
+theorem refines_popUntilMark (l : Nat) : StepRefines (.popUntilMark l) := by
+  intro n s s' hpc hc hex
+  simp only [exec] at hex
+  have hr : (popToMark l true (s.data.length + 1)).run { s with pc := s.pc + 1 } = (.ok (), s') := by
+    vmsimp_at hex
+    vmsimp
+    exact hex
+  obtain ⟨above, below, h1, h2, h3⟩ := popToMark_ok l true _ _ s' hr
+  simp only at h1
+  have := CStep.popUntil (f := fnB s s.curfunc) (absC s) _ l (above.map cellOf) (below.map cellOf) (fetchB hc) rfl
+    (by simp [absC, h1, cellOf]) (fun hm => h2 _ hm rfl)
+  rw [h3]
+  simpa [absC, pc_succ hpc, cellOf] using this
+
+theorem run_get_bind {α : Type} (f : St → M α) (s : St) : (do let t ← get; f t : M α).run s = (f s).run s := rfl
+
+theorem run_then_incPc (m : M Unit) (s : St) :
+    (do m; incPc : M Unit).run s =
+      match m.run s with
+      | (.ok _, s1) => (.ok (), { s1 with pc := s1.pc + 1 })
+      | (.error e, s1) => (.error e, s1) := by
+  show ExceptT.run (m >>= fun _ => incPc) s = _
+  cases hm : m.run s with
+  | mk r s1 =>
+    have hm' : ExceptT.run m s = (r, s1) := hm
+    cases r with
+    | error e =>
+      vmsimp
+      rw [show m s = (Except.error e, s1) from hm]
+      rfl
+    | ok u =>
+      vmsimp
+      rw [show m s = (Except.ok u, s1) from hm]
+      rfl
+
+theorem refines_clearMark (l : Nat) : StepRefines (.clearMark l) := by
+  intro n s s' hpc hc hex
+  simp only [exec] at hex
+  rw [run_get_bind, run_then_incPc] at hex
+  cases hr : (popToMark l false (s.data.length + 1)).run s with
+  | mk r s1 =>
+    rw [hr] at hex
+    cases r with
+    | error e => cases hex
+    | ok u =>
+      cases hex
+      obtain ⟨above, below, h1, h2, h3⟩ := popToMark_ok l false _ _ s1 hr
+      have := CStep.clearMark (f := fnB s s.curfunc) (absC s) _ l (above.map cellOf) (below.map cellOf) (fetchB hc) rfl
+        (by simp [absC, h1, cellOf]) (fun hm => h2 _ hm rfl)
+      rw [h3]
+      simpa [absC, pc_succ hpc] using this
+
+/-! ## `break` / `continue` -/
+
+theorem popScopes_ok : ∀ (n : Nat) (s s' : St), (popScopes n).run s = (.ok (), s') →
+    n ≤ s.linear.length ∧ s' = { s with linear := s.linear.drop n }
+  | 0, s, s', h => by
+    simp only [popScopes] at h
+    vmsimp_at h
+    cases h
+    exact ⟨Nat.zero_le _, by simp⟩
+  | n + 1, s, s', h => by
+    simp only [popScopes] at h
+    cases hl : s.linear with
+    | nil => vmsimp_at h [hl]; cases h
+    | cons top rest =>
+      have hr : (popScopes n).run { s with linear := rest } = (.ok (), s') := by
+        vmsimp_at h [hl]
+        vmsimp
+        exact h
+      obtain ⟨h1, h2⟩ := popScopes_ok n _ s' hr
+      refine ⟨by simp only at h1; simp only [List.length_cons]; omega, ?_⟩
+      rw [h2]
+      simp
+
+theorem findIdx?_map' {α β : Type} (f : α → β) (p : β → Bool) : ∀ (xs : List α),
+    (xs.map f).findIdx? p = xs.findIdx? (fun a => p (f a))
+  | [] => rfl
+  | x :: xs => by
+    simp only [List.map_cons, List.findIdx?_cons]
+    rw [findIdx?_map' f p xs]
+
+theorem beq_loopStart (a l : Nat) : (BInstr.loopStart a == BInstr.loopStart l) = (a == l) := by
+  by_cases h : a = l
+  · subst h; simp
+  · have h1 : (a == l) = false := by simpa using h
+    have h2 : ¬ (BInstr.loopStart a = BInstr.loopStart l) := by intro he; cases he; exact h rfl
+    rw [h1]
+    simpa using h2
+
+/-- `FindLoop` on the listing the checker sees = `findLoopStart` on the VM's code -/
+theorem loopPos_B (T : List LoopRec) (code : List Instr) (l : Nat) : loopPos (B T code) l = findLoopStart code l := by
+  unfold loopPos findLoopStart B
+  rw [findIdx?_map']
+  congr 1
+  funext i
+  cases i <;> first | exact beq_loopStart _ _ | rfl | simp [toB]
+
+/-- `BreakInstr`, given that the new pc is not negative (the VM does not check; in generated code
+the offsets are positions inside the loop) -/
+theorem refines_brk (l k : Nat) (n : Nat) (s s' : St) (hpc : 0 ≤ s.pc)
+    (hc : (fnOf s s.curfunc).code[s.pc.toNat]? = some (.brk l k))
+    (hex : (exec (n + 1) (.brk l k)).run s = (.ok (), s')) (hnn : 0 ≤ s'.pc) :
+    CStep (fnB s s.curfunc) (absC s) (absC s') := by
+  simp only [exec] at hex
+  rw [run_get_bind] at hex
+  cases hf : findLoopStart (fnOf s s.curfunc).code l with
+  | none => rw [hf] at hex; vmsimp_at hex; cases hex
+  | some pos =>
+    rw [hf] at hex
+    cases hr : (popScopes k).run s with
+    | mk r s1 =>
+      cases r with
+      | error e =>
+        vmsimp_at hex
+        rw [show popScopes k s = (Except.error e, s1) from hr] at hex
+        cases hex
+      | ok u =>
+        vmsimp_at hex
+        rw [show popScopes k s = (Except.ok u, s1) from hr] at hex
+        cases hex
+        obtain ⟨h1, h2⟩ := popScopes_ok k s s1 hr
+        subst h2
+        have hlp : loopPos (fnB s s.curfunc).code l = some pos := by
+          show loopPos (B s.loops (fnOf s s.curfunc).code) l = _
+          rw [loopPos_B]; exact hf
+        have := CStep.exitLoop (f := fnB s s.curfunc) (absC s) _ l (s.loops.getD l {}).breakOff k pos (fetchB hc) rfl hlp
+          (by simpa using hnn) h1
+        simpa [absC] using this
+
+theorem refines_cont (l k : Nat) (n : Nat) (s s' : St) (hpc : 0 ≤ s.pc)
+    (hc : (fnOf s s.curfunc).code[s.pc.toNat]? = some (.cont l k))
+    (hex : (exec (n + 1) (.cont l k)).run s = (.ok (), s')) (hnn : 0 ≤ s'.pc) :
+    CStep (fnB s s.curfunc) (absC s) (absC s') := by
+  simp only [exec] at hex
+  rw [run_get_bind] at hex
+  cases hf : findLoopStart (fnOf s s.curfunc).code l with
+  | none => rw [hf] at hex; vmsimp_at hex; cases hex
+  | some pos =>
+    rw [hf] at hex
+    cases hr : (popScopes k).run s with
+    | mk r s1 =>
+      cases r with
+      | error e =>
+        vmsimp_at hex
+        rw [show popScopes k s = (Except.error e, s1) from hr] at hex
+        cases hex
+      | ok u =>
+        vmsimp_at hex
+        rw [show popScopes k s = (Except.ok u, s1) from hr] at hex
+        cases hex
+        obtain ⟨h1, h2⟩ := popScopes_ok k s s1 hr
+        subst h2
+        have hlp : loopPos (fnB s s.curfunc).code l = some pos := by
+          show loopPos (B s.loops (fnOf s s.curfunc).code) l = _
+          rw [loopPos_B]; exact hf
+        have := CStep.exitLoop (f := fnB s s.curfunc) (absC s) _ l (s.loops.getD l {}).contOff k pos (fetchB hc) rfl hlp
+          (by simpa using hnn) h1
+        simpa [absC] using this
+
 end ZygoVerif.Refine
